@@ -4,6 +4,7 @@ from __future__ import annotations
 
 import itertools
 import random
+import re
 import time
 
 TOKENS = ["<%", "%>", "</%", "${", "}", "%", "%%", "##", "\\", "\n", "\r\n", "\r", '"', "'", "|", ">", "/",
@@ -92,6 +93,9 @@ def check_string(s):
             if not (seg.startswith("<%doc>") and seg.endswith("</%doc>")) or "</%doc>" in seg[6:-7]:
                 return {"kind": "doc-span-not-first-close", "source": s, "span": seg}
         elif "(%(?!%)|##)" in pat:
+            body = seg.rstrip("\n").rstrip("\r") if seg.endswith("\n") else seg
+            if "\n" in re.sub(r"\\\r?\n", "", body):
+                return {"kind": "line-directive-spans-more-than-its-line", "source": s, "span": seg}
             if m.group(1) == "##":
                 if not (st == 0 or s[st - 1] == "\n") or not (en == len(s) or seg.endswith("\n")):
                     return {"kind": "comment-line-span-not-a-whole-line", "source": s, "span": seg}
